@@ -1,4 +1,1191 @@
-//! c10 check (under construction)
+//! C10 - a SNAP token is accepted exactly when authentic, for SNAP, and within lifetime.
+//!
+//! Bounded exhaustive enumeration of the mutation neighbourhood of two valid base tokens (claims
+//! version 0 and 1, signed with the repo's constant Ed25519 test key): every single mutation, every
+//! pair of mutations from different groups (thorough: additionally every triple of header/claim
+//! mutations), plus all short strings over a small alphabet. Every string is judged by
+//!   * an independent acceptance predicate written here (own base64url codec, `serde_json::Value`
+//!     walked by hand, `ed25519-dalek` verification, claim rules as the property words them), and
+//!   * the real `SnapTokenVerifier::verify` (static key) and the real router of
+//!     `snap_control::server::build_router` driven in-process with `tower::ServiceExt::oneshot`
+//!     (real auth layer + real `register_snaptun_identity_handler`, recording registry).
+//! A second stage drives a verifier with a real `JwksKeyStore` fed from a loopback JWKS endpoint for
+//! the `kid` branches.
+//!
+//! Wall clock: the verifier reads `SystemTime::now()` inside `jsonwebtoken` (no seam). Every case is
+//! therefore built relative to a `now` read immediately before it is evaluated, all time offsets
+//! keep a guard of >= 3 s from the leeway boundaries, and a case whose evaluation took > 1 s of
+//! wall time is re-built and re-run. Verdict classes are thereby independent of the clock.
+
+use std::{
+    cell::RefCell,
+    net::SocketAddr,
+    sync::{Arc, Mutex},
+    time::{Duration, Instant, SystemTime, UNIX_EPOCH},
+};
+
+use ed25519_dalek::{Signature, Signer, SigningKey, Verifier, VerifyingKey};
+use rayon::prelude::*;
+use serde_json::{Map, Value, json};
+use snap_control::server::SnapTokenVerifier;
+use snap_tokens::AnyClaims;
+use tower::ServiceExt;
+
+const LEEWAY: i64 = 60;
+const TRUSTED_SEED: [u8; 32] = [43u8; 32]; // scion_sdk_token_validator::validator::insecure_const_ed25519_signing_key
+const UNTRUSTED_SEED: [u8; 32] = [99u8; 32];
+const JWKS_SEED: [u8; 32] = [7u8; 32];
+const V0_PSSID: &str = "ef16640f-0fa9-4360-be74-dbeec7ab4f9a";
+const V1_PSSID: &str = "ABI-RWfomxLTpFZCZhQXQAA"; // base64url(0x00 || uuid)
+
+// ---------------------------------------------------------------------------------------------
+// own base64url codec (RFC 4648 §5, no padding, canonical)
+// ---------------------------------------------------------------------------------------------
+const B64: &[u8; 64] = b"ABCDEFGHIJKLMNOPQRSTUVWXYZabcdefghijklmnopqrstuvwxyz0123456789-_";
+
+fn b64e(b: &[u8]) -> String {
+    let mut s = String::with_capacity(b.len() * 4 / 3 + 3);
+    for c in b.chunks(3) {
+        let n = (c[0] as u32) << 16 | (*c.get(1).unwrap_or(&0) as u32) << 8 | *c.get(2).unwrap_or(&0) as u32;
+        s.push(B64[(n >> 18) as usize & 63] as char);
+        s.push(B64[(n >> 12) as usize & 63] as char);
+        if c.len() > 1 {
+            s.push(B64[(n >> 6) as usize & 63] as char);
+        }
+        if c.len() > 2 {
+            s.push(B64[n as usize & 63] as char);
+        }
+    }
+    s
+}
+
+/// Strict decode: only the URL-safe alphabet, no '=', no impossible length, unused trailing bits zero.
+fn b64d_strict(s: &str) -> Option<Vec<u8>> {
+    let bytes = s.as_bytes();
+    if bytes.len() % 4 == 1 {
+        return None;
+    }
+    let mut out = Vec::with_capacity(bytes.len() * 3 / 4);
+    let mut acc: u32 = 0;
+    let mut nbits = 0;
+    for &c in bytes {
+        let v = B64.iter().position(|x| *x == c)? as u32;
+        acc = (acc << 6) | v;
+        nbits += 6;
+        if nbits >= 8 {
+            nbits -= 8;
+            out.push((acc >> nbits) as u8);
+            acc &= (1 << nbits) - 1;
+        }
+    }
+    if acc != 0 {
+        return None; // non-canonical trailing bits
+    }
+    Some(out)
+}
+
+// ---------------------------------------------------------------------------------------------
+// independent acceptance predicate
+// ---------------------------------------------------------------------------------------------
+#[derive(Clone, Debug, PartialEq)]
+enum Verdict {
+    Accept { exp: u64 },
+    Refuse(&'static str),
+    /// The property text does not decide this string (stated in the evidence assumptions).
+    Unspecified(&'static str),
+}
+
+fn as_u64_int(v: &Value) -> Option<u64> {
+    // an integer literal (serde_json keeps `1.0` as f64, which is not an integer literal)
+    match v {
+        Value::Number(n) if n.is_u64() => n.as_u64(),
+        _ => None,
+    }
+}
+
+fn is_uuid_text(s: &str) -> bool {
+    // hyphenated 8-4-4-4-12 hex (the form the v0 issuer writes)
+    let b = s.as_bytes();
+    b.len() == 36
+        && b.iter().enumerate().all(|(i, c)| match i {
+            8 | 13 | 18 | 23 => *c == b'-',
+            _ => c.is_ascii_hexdigit(),
+        })
+}
+
+/// `keys`: (kid or None for the statically configured key, verifying key). `jwks`: whether a JWKS
+/// store is configured (then a token with a `kid` must resolve through it).
+fn oracle(token: &str, now: i64, static_key: &VerifyingKey, jwks: Option<&[(&str, VerifyingKey)]>) -> Verdict {
+    let parts: Vec<&str> = token.split('.').collect();
+    if parts.len() != 3 {
+        return Verdict::Refuse("not-three-segments");
+    }
+    let Some(hb) = b64d_strict(parts[0]) else { return Verdict::Refuse("header-not-base64url") };
+    let Some(pb) = b64d_strict(parts[1]) else { return Verdict::Refuse("payload-not-base64url") };
+    let Some(sb) = b64d_strict(parts[2]) else { return Verdict::Refuse("signature-not-base64url") };
+    let Ok(Value::Object(h)) = serde_json::from_slice::<Value>(&hb) else { return Verdict::Refuse("header-not-json-object") };
+    match h.get("alg") {
+        Some(Value::String(a)) if a == "EdDSA" => {}
+        Some(Value::String(a)) if a == "none" => return Verdict::Refuse("alg-none"),
+        Some(Value::String(_)) => return Verdict::Refuse("alg-not-eddsa"),
+        Some(_) => return Verdict::Refuse("alg-not-a-string"),
+        None => return Verdict::Refuse("alg-absent"),
+    }
+    // JOSE header parameters typ / kid are strings (RFC 7515 §4.1.4, §4.1.9)
+    for k in ["typ", "kid"] {
+        match h.get(k) {
+            None | Some(Value::String(_)) => {}
+            Some(_) => return Verdict::Refuse("header-param-not-a-string"),
+        }
+    }
+    let key = match (h.get("kid"), jwks) {
+        (Some(Value::String(kid)), Some(set)) => match set.iter().find(|(k, _)| k == kid) {
+            Some((_, k)) => k,
+            None => return Verdict::Refuse("kid-unknown"),
+        },
+        _ => static_key,
+    };
+    let Ok(sig) = Signature::from_slice(&sb) else { return Verdict::Refuse("signature-not-64-bytes") };
+    let msg = format!("{}.{}", parts[0], parts[1]);
+    if key.verify(msg.as_bytes(), &sig).is_err() {
+        return Verdict::Refuse("signature-invalid");
+    }
+    let Ok(Value::Object(c)) = serde_json::from_slice::<Value>(&pb) else { return Verdict::Refuse("claims-not-json-object") };
+    // claims version
+    let ver = match c.get("ver") {
+        None => 0,
+        Some(v) => match as_u64_int(v) {
+            Some(1) => 1,
+            Some(_) => return Verdict::Refuse("version-unsupported"),
+            None => return Verdict::Refuse("version-not-an-integer"),
+        },
+    };
+    let str_claim = |k: &str| matches!(c.get(k), Some(Value::String(_)));
+    let int_claim = |k: &str| c.get(k).and_then(as_u64_int);
+    // required claims of the version, in the type the version defines
+    let Some(exp) = int_claim("exp") else { return Verdict::Refuse("exp-missing-or-not-integer") };
+    if !str_claim("jti") {
+        return Verdict::Refuse("jti-missing-or-not-string");
+    }
+    let Some(Value::String(pssid)) = c.get("pssid") else { return Verdict::Refuse("pssid-missing-or-not-string") };
+    if ver == 0 {
+        if !is_uuid_text(pssid) {
+            return Verdict::Refuse("pssid-not-v0-form");
+        }
+    } else {
+        match b64d_strict(pssid) {
+            Some(b) if b.len() == 17 && b[0] == 0 => {}
+            _ => return Verdict::Refuse("pssid-not-v1-form"),
+        }
+        if !str_claim("iss") {
+            return Verdict::Refuse("iss-missing-or-not-string");
+        }
+        if !str_claim("aud") {
+            return Verdict::Refuse("aud-missing-or-not-string");
+        }
+        if int_claim("nbf").is_none() {
+            return Verdict::Refuse("nbf-missing-or-not-integer");
+        }
+        if int_claim("iat").is_none() {
+            return Verdict::Refuse("iat-missing-or-not-integer");
+        }
+    }
+    // audience: whenever the token names an audience it must name "snap"
+    match c.get("aud") {
+        None | Some(Value::Null) => {}
+        Some(Value::String(a)) => {
+            if a != "snap" {
+                return Verdict::Refuse("aud-not-snap");
+            }
+        }
+        Some(Value::Array(items)) => {
+            let names: Vec<&str> = items.iter().filter_map(|x| x.as_str()).collect();
+            if names.contains(&"snap") {
+                if names.len() != items.len() {
+                    return Verdict::Unspecified("aud-array-with-snap-and-non-strings");
+                }
+            } else if !names.is_empty() {
+                return Verdict::Refuse(if names.len() == items.len() { "aud-not-snap" } else { "aud-mixed-array-not-snap" });
+            } else {
+                return Verdict::Unspecified("aud-present-but-names-nothing");
+            }
+        }
+        Some(_) => return Verdict::Unspecified("aud-present-but-names-nothing"),
+    }
+    // validity window, fixed leeway
+    if (exp as i128) + (LEEWAY as i128) < now as i128 {
+        return Verdict::Refuse("expired");
+    }
+    match c.get("nbf") {
+        None | Some(Value::Null) => {}
+        Some(v) => match v.as_f64() {
+            Some(nbf) if nbf >= 0.0 => {
+                if nbf - LEEWAY as f64 > now as f64 {
+                    return Verdict::Refuse("nbf-in-future");
+                }
+            }
+            _ => return Verdict::Unspecified("nbf-present-but-not-a-time"),
+        },
+    }
+    Verdict::Accept { exp }
+}
+
+// ---------------------------------------------------------------------------------------------
+// mutation catalogue
+// ---------------------------------------------------------------------------------------------
+#[derive(Clone, Debug)]
+enum ClaimOp {
+    Remove,
+    Set(Value),
+    /// now + offset as integer / as decimal string / as one-element array / as float
+    Time(i64),
+    TimeStr(i64),
+    TimeArr(i64),
+    TimeFloat(i64),
+}
+#[derive(Clone, Debug)]
+enum SigOp {
+    Flip(u16),
+    Trunc(usize),
+    Append,
+    Empty,
+    Zero,
+    /// the other base token's signature
+    Splice,
+    /// re-signed with a key the verifier does not trust
+    Untrusted,
+    /// signature computed before the header/claim mutations were applied
+    Stale,
+    /// same 64 bytes, non-canonical base64 (unused bits of the last character set)
+    TrailBits,
+    /// signed with the JWKS key (kid "k1")
+    JwksKey,
+}
+#[derive(Clone, Debug)]
+enum StrOp {
+    Pad(usize),
+    StdAlphabet,
+    LeadSpace,
+    TrailSpace,
+    InnerSpace,
+    Newline,
+    Tab,
+    TrailDot,
+    FourthSeg,
+    LeadDot,
+    DoubleDot,
+    EmptyString,
+    OneSeg,
+    TwoSeg,
+    TwoSegDot,
+    SwapHeaderPayload,
+    PayloadTwice,
+}
+#[derive(Clone, Debug)]
+enum Op {
+    Hdr(&'static str, Option<Value>),
+    Claim(&'static str, ClaimOp),
+    Sig(SigOp),
+    Str(StrOp),
+}
+#[derive(Clone, Debug)]
+struct Mutn {
+    group: String,
+    id: String,
+    op: Op,
+}
+
+fn m(group: &str, id: String, op: Op) -> Mutn {
+    Mutn { group: group.to_string(), id, op }
+}
+
+const TIME_OFFS: [i64; 8] = [-3600, -64, -58, -3, 3, 57, 63, 3600];
+
+fn catalogue(base_ver: u8, flip_step: usize) -> Vec<Mutn> {
+    let mut v = vec![];
+    // header
+    for (name, val) in [
+        ("none", Some(json!("none"))),
+        ("HS256", Some(json!("HS256"))),
+        ("ES256", Some(json!("ES256"))),
+        ("RS256", Some(json!("RS256"))),
+        ("eddsa", Some(json!("eddsa"))),
+        ("Ed25519", Some(json!("Ed25519"))),
+        ("number", Some(json!(5))),
+        ("null", Some(Value::Null)),
+        ("absent", None),
+    ] {
+        v.push(m("alg", format!("alg={name}"), Op::Hdr("alg", val)));
+    }
+    for (name, val) in [("absent", None), ("jwt", Some(json!("jwt"))), ("at+jwt", Some(json!("at+jwt"))), ("number", Some(json!(7)))] {
+        v.push(m("typ", format!("typ={name}"), Op::Hdr("typ", val)));
+    }
+    for (name, val) in [("k1", Some(json!("k1"))), ("unknown", Some(json!("nobody"))), ("empty", Some(json!(""))), ("number", Some(json!(7)))] {
+        v.push(m("kid", format!("kid={name}"), Op::Hdr("kid", val)));
+    }
+    // claims
+    let present: &[&str] = if base_ver == 0 { &["pssid", "exp", "jti"] } else { &["ver", "iss", "aud", "exp", "nbf", "iat", "jti", "pssid"] };
+    let has = |c: &str| present.contains(&c);
+    // ver
+    {
+        let g = "c:ver";
+        if has("ver") {
+            v.push(m(g, "ver:remove".into(), Op::Claim("ver", ClaimOp::Remove)));
+        }
+        for (name, val) in [("0", json!(0)), ("1", json!(1)), ("2", json!(2)), ("str1", json!("1")), ("1.0", json!(1.0)), ("null", Value::Null), ("arr1", json!([1])), ("-1", json!(-1)), ("true", json!(true))] {
+            v.push(m(g, format!("ver={name}"), Op::Claim("ver", ClaimOp::Set(val))));
+        }
+    }
+    // string claims iss, jti
+    for c in ["iss", "jti"] {
+        let g = format!("c:{c}");
+        if has(c) {
+            v.push(m(&g, format!("{c}:remove"), Op::Claim(c, ClaimOp::Remove)));
+        }
+        for (name, val) in [("number", json!(12345)), ("array", json!(["ssr"])), ("null", Value::Null), ("empty", json!("")), ("other", json!("someone-else")), ("object", json!({}))] {
+            v.push(m(&g, format!("{c}={name}"), Op::Claim(c, ClaimOp::Set(val))));
+        }
+    }
+    // aud
+    {
+        let g = "c:aud";
+        if has("aud") {
+            v.push(m(g, "aud:remove".into(), Op::Claim("aud", ClaimOp::Remove)));
+        }
+        for (name, val) in [
+            ("snap", json!("snap")),
+            ("[snap]", json!(["snap"])),
+            ("[snap,x]", json!(["snap", "x"])),
+            ("[x,snap]", json!(["x", "snap"])),
+            ("x", json!("x")),
+            ("[x]", json!(["x"])),
+            ("[]", json!([])),
+            ("SNAP", json!("SNAP")),
+            ("snap-suffix", json!("snap2")),
+            ("number", json!(12345)),
+            ("[x,5]", json!(["x", 5])),
+            ("[5]", json!([5])),
+            ("null", Value::Null),
+            ("object", json!({"snap": true})),
+            ("empty", json!("")),
+        ] {
+            v.push(m(g, format!("aud={name}"), Op::Claim("aud", ClaimOp::Set(val))));
+        }
+    }
+    // time claims
+    for c in ["exp", "nbf", "iat"] {
+        let g = format!("c:{c}");
+        if has(c) {
+            v.push(m(&g, format!("{c}:remove"), Op::Claim(c, ClaimOp::Remove)));
+        }
+        for off in TIME_OFFS {
+            v.push(m(&g, format!("{c}:now{off:+}"), Op::Claim(c, ClaimOp::Time(off))));
+        }
+        for off in [-3600i64, 3600] {
+            v.push(m(&g, format!("{c}:str(now{off:+})"), Op::Claim(c, ClaimOp::TimeStr(off))));
+            v.push(m(&g, format!("{c}:arr(now{off:+})"), Op::Claim(c, ClaimOp::TimeArr(off))));
+            v.push(m(&g, format!("{c}:float(now{off:+})"), Op::Claim(c, ClaimOp::TimeFloat(off))));
+        }
+        for (name, val) in [("null", Value::Null), ("-1", json!(-1)), ("0", json!(0)), ("u64max", json!(u64::MAX)), ("1e30", json!(1e30)), ("true", json!(true)), ("object", json!({}))] {
+            v.push(m(&g, format!("{c}={name}"), Op::Claim(c, ClaimOp::Set(val))));
+        }
+    }
+    // pssid
+    {
+        let g = "c:pssid";
+        v.push(m(g, "pssid:remove".into(), Op::Claim("pssid", ClaimOp::Remove)));
+        for (name, val) in [
+            ("v0form", json!(V0_PSSID)),
+            ("v1form", json!(V1_PSSID)),
+            ("garbage", json!("not a pssid")),
+            ("v1-16bytes", json!(b64e(&[0u8; 16]))),
+            ("v1-firstbyte1", json!(b64e(&[1u8; 17]))),
+            ("v1-padded", json!(format!("{V1_PSSID}="))),
+            ("number", json!(12345)),
+            ("array", json!([V0_PSSID])),
+            ("null", Value::Null),
+            ("empty", json!("")),
+        ] {
+            // setting the base's own form is the identity and is filtered out later
+            v.push(m(g, format!("pssid={name}"), Op::Claim("pssid", ClaimOp::Set(val))));
+        }
+    }
+    // signature
+    {
+        let g = "sig";
+        let mut bit = 0usize;
+        while bit < 512 {
+            v.push(m(g, format!("sig:flip{bit}"), Op::Sig(SigOp::Flip(bit as u16))));
+            bit += flip_step;
+        }
+        for n in [63usize, 32, 1] {
+            v.push(m(g, format!("sig:trunc{n}"), Op::Sig(SigOp::Trunc(n))));
+        }
+        v.push(m(g, "sig:append".into(), Op::Sig(SigOp::Append)));
+        v.push(m(g, "sig:empty".into(), Op::Sig(SigOp::Empty)));
+        v.push(m(g, "sig:zero".into(), Op::Sig(SigOp::Zero)));
+        v.push(m(g, "sig:splice-other-token".into(), Op::Sig(SigOp::Splice)));
+        v.push(m(g, "sig:untrusted-key".into(), Op::Sig(SigOp::Untrusted)));
+        v.push(m(g, "sig:stale".into(), Op::Sig(SigOp::Stale)));
+        v.push(m(g, "sig:trailing-bits".into(), Op::Sig(SigOp::TrailBits)));
+        v.push(m(g, "sig:jwks-key".into(), Op::Sig(SigOp::JwksKey)));
+    }
+    // encoding / structure
+    {
+        let g = "str";
+        for s in 0..3 {
+            v.push(m(g, format!("str:pad-seg{s}"), Op::Str(StrOp::Pad(s))));
+        }
+        for (id, op) in [
+            ("str:std-alphabet", StrOp::StdAlphabet),
+            ("str:lead-space", StrOp::LeadSpace),
+            ("str:trail-space", StrOp::TrailSpace),
+            ("str:inner-space", StrOp::InnerSpace),
+            ("str:newline", StrOp::Newline),
+            ("str:tab", StrOp::Tab),
+            ("str:trail-dot", StrOp::TrailDot),
+            ("str:fourth-seg", StrOp::FourthSeg),
+            ("str:lead-dot", StrOp::LeadDot),
+            ("str:double-dot", StrOp::DoubleDot),
+            ("str:empty", StrOp::EmptyString),
+            ("str:one-seg", StrOp::OneSeg),
+            ("str:two-seg", StrOp::TwoSeg),
+            ("str:two-seg-dot", StrOp::TwoSegDot),
+            ("str:swap-header-payload", StrOp::SwapHeaderPayload),
+            ("str:payload-twice", StrOp::PayloadTwice),
+        ] {
+            v.push(m(g, id.to_string(), Op::Str(op)));
+        }
+    }
+    v
+}
+
+// ---------------------------------------------------------------------------------------------
+// token builder
+// ---------------------------------------------------------------------------------------------
+struct Keys {
+    trusted: SigningKey,
+    untrusted: SigningKey,
+    jwks: SigningKey,
+}
+impl Keys {
+    fn new() -> Keys {
+        Keys { trusted: SigningKey::from_bytes(&TRUSTED_SEED), untrusted: SigningKey::from_bytes(&UNTRUSTED_SEED), jwks: SigningKey::from_bytes(&JWKS_SEED) }
+    }
+}
+
+fn base_parts(base_ver: u8, now: i64) -> (Map<String, Value>, Map<String, Value>) {
+    let h = json!({"typ": "JWT", "alg": "EdDSA"});
+    let c = if base_ver == 0 {
+        json!({"pssid": V0_PSSID, "exp": now + 1800, "jti": "jti-v0"})
+    } else {
+        json!({"ver": 1, "iss": "ssr", "aud": "snap", "exp": now + 1800, "nbf": now - 30, "iat": now - 30, "jti": "jti-v1", "pssid": V1_PSSID})
+    };
+    (h.as_object().unwrap().clone(), c.as_object().unwrap().clone())
+}
+
+fn signed(keys: &SigningKey, h: &Map<String, Value>, c: &Map<String, Value>) -> (String, Vec<u8>) {
+    let msg = format!("{}.{}", b64e(serde_json::to_string(h).unwrap().as_bytes()), b64e(serde_json::to_string(c).unwrap().as_bytes()));
+    let sig = keys.sign(msg.as_bytes()).to_bytes().to_vec();
+    (msg, sig)
+}
+
+fn build(base_ver: u8, muts: &[&Mutn], now: i64, keys: &Keys) -> String {
+    let (h0, c0) = base_parts(base_ver, now);
+    let (mut h, mut c) = (h0.clone(), c0.clone());
+    for mu in muts {
+        match &mu.op {
+            Op::Hdr(k, None) => {
+                h.remove(*k);
+            }
+            Op::Hdr(k, Some(v)) => {
+                h.insert(k.to_string(), v.clone());
+            }
+            Op::Claim(k, op) => match op {
+                ClaimOp::Remove => {
+                    c.remove(*k);
+                }
+                ClaimOp::Set(v) => {
+                    c.insert(k.to_string(), v.clone());
+                }
+                ClaimOp::Time(o) => {
+                    c.insert(k.to_string(), json!(now + o));
+                }
+                ClaimOp::TimeStr(o) => {
+                    c.insert(k.to_string(), json!((now + o).to_string()));
+                }
+                ClaimOp::TimeArr(o) => {
+                    c.insert(k.to_string(), json!([now + o]));
+                }
+                ClaimOp::TimeFloat(o) => {
+                    c.insert(k.to_string(), json!((now + o) as f64 + 0.5));
+                }
+            },
+            _ => {}
+        }
+    }
+    let (msg, mut sig) = signed(&keys.trusted, &h, &c);
+    let mut sig_text: Option<String> = None;
+    for mu in muts {
+        if let Op::Sig(op) = &mu.op {
+            match op {
+                SigOp::Flip(b) => sig[*b as usize / 8] ^= 0x80 >> (*b % 8),
+                SigOp::Trunc(n) => sig.truncate(*n),
+                SigOp::Append => sig.push(0),
+                SigOp::Empty => sig.clear(),
+                SigOp::Zero => sig = vec![0u8; 64],
+                SigOp::Splice => {
+                    let (oh, oc) = base_parts(1 - base_ver, now);
+                    sig = signed(&keys.trusted, &oh, &oc).1;
+                }
+                SigOp::Untrusted => sig = keys.untrusted.sign(msg.as_bytes()).to_bytes().to_vec(),
+                SigOp::JwksKey => sig = keys.jwks.sign(msg.as_bytes()).to_bytes().to_vec(),
+                SigOp::Stale => sig = signed(&keys.trusted, &h0, &c0).1,
+                SigOp::TrailBits => {
+                    // 64 bytes -> 86 characters, the last one carries 4 data bits + 2 unused bits
+                    let mut t = b64e(&sig).into_bytes();
+                    let last = *t.last().unwrap();
+                    let v = B64.iter().position(|x| *x == last).unwrap();
+                    *t.last_mut().unwrap() = B64[v | 1];
+                    sig_text = Some(String::from_utf8(t).unwrap());
+                }
+            }
+        }
+    }
+    let s64 = sig_text.unwrap_or_else(|| b64e(&sig));
+    let (h64, p64) = msg.split_once('.').unwrap();
+    let mut tok = format!("{h64}.{p64}.{s64}");
+    for mu in muts {
+        if let Op::Str(op) = &mu.op {
+            let segs: Vec<String> = tok.split('.').map(|x| x.to_string()).collect();
+            let seg = |i: usize| segs.get(i).cloned().unwrap_or_default();
+            tok = match op {
+                StrOp::Pad(i) => {
+                    let mut s = segs.clone();
+                    if let Some(x) = s.get_mut(*i) {
+                        let pad = (4 - x.len() % 4) % 4;
+                        x.push_str(&"=".repeat(pad.max(1)));
+                    }
+                    s.join(".")
+                }
+                StrOp::StdAlphabet => {
+                    // force at least one character that differs between the two alphabets: re-encode is
+                    // not possible without re-signing, so translate and, if nothing changed, say so by
+                    // returning the unchanged string (filtered as identity)
+                    tok.replace('-', "+").replace('_', "/")
+                }
+                StrOp::LeadSpace => format!(" {tok}"),
+                StrOp::TrailSpace => format!("{tok} "),
+                StrOp::InnerSpace => format!("{}. {}.{}", seg(0), seg(1), seg(2)),
+                StrOp::Newline => format!("{tok}\n"),
+                StrOp::Tab => format!("{}.{}\t.{}", seg(0), seg(1), seg(2)),
+                StrOp::TrailDot => format!("{tok}."),
+                StrOp::FourthSeg => format!("{tok}.{}", seg(2)),
+                StrOp::LeadDot => format!(".{tok}"),
+                StrOp::DoubleDot => format!("{}..{}.{}", seg(0), seg(1), seg(2)),
+                StrOp::EmptyString => String::new(),
+                StrOp::OneSeg => seg(0),
+                StrOp::TwoSeg => format!("{}.{}", seg(0), seg(1)),
+                StrOp::TwoSegDot => format!("{}.{}.", seg(0), seg(1)),
+                StrOp::SwapHeaderPayload => format!("{}.{}.{}", seg(1), seg(0), seg(2)),
+                StrOp::PayloadTwice => format!("{}.{}.{}", seg(0), seg(0), seg(2)),
+            };
+        }
+    }
+    tok
+}
+
+// ---------------------------------------------------------------------------------------------
+// real side
+// ---------------------------------------------------------------------------------------------
+#[derive(Default)]
+struct RecordingRegistry {
+    calls: Mutex<Vec<(Duration, String)>>,
+}
+impl snap_control::api::crpc::model::SnapTunIdentityRegistry for RecordingRegistry {
+    fn register(&self, _now: Instant, key: &str, _id: [u8; 32], _psk: Option<[u8; 32]>, lifetime: Duration, _claims: &AnyClaims) -> anyhow::Result<bool> {
+        self.calls.lock().unwrap().push((lifetime, key.to_string()));
+        Ok(true)
+    }
+    fn remove_expired(&self, _now: Instant) {}
+}
+struct NoUnderlays;
+impl snap_control::model::UnderlayDiscovery for NoUnderlays {
+    fn list_snap_underlays(&self) -> Vec<snap_control::model::SnapUnderlay> {
+        vec![]
+    }
+    fn list_udp_underlays(&self) -> Vec<snap_control::model::UdpUnderlay> {
+        vec![]
+    }
+}
+struct NoSegments;
+#[async_trait::async_trait]
+impl endhost_api_models::SegmentsDiscovery for NoSegments {
+    async fn list_segments(
+        &self,
+        _src: sciparse::identifier::isd_asn::IsdAsn,
+        _dst: sciparse::identifier::isd_asn::IsdAsn,
+        _page_size: i32,
+        _page_token: String,
+    ) -> Result<sciparse::segment::SegmentsPage, endhost_api_models::SegmentsError> {
+        Err(endhost_api_models::SegmentsError::InternalError("not part of this check".into()))
+    }
+}
+struct NoResolver;
+impl snap_control::api::crpc::model::SnapDataPlaneResolver for NoResolver {
+    fn get_data_plane_address(&self, _ip: std::net::IpAddr) -> Result<snap_control::api::crpc::model::SnapDataPlane, (http::StatusCode, anyhow::Error)> {
+        Err((http::StatusCode::NOT_FOUND, anyhow::anyhow!("not part of this check")))
+    }
+}
+
+struct Real {
+    rt: tokio::runtime::Runtime,
+    verifier: SnapTokenVerifier,
+    router: axum::Router,
+    registry: Arc<RecordingRegistry>,
+}
+
+fn static_verifier() -> SnapTokenVerifier {
+    let (_, decoding_key) = snap_tokens::v0::insecure_const_snap_token_key_pair();
+    SnapTokenVerifier::new(decoding_key)
+}
+
+impl Real {
+    fn new(verifier: SnapTokenVerifier) -> Real {
+        let rt = tokio::runtime::Builder::new_current_thread().enable_all().build().expect("tokio runtime");
+        let registry = Arc::new(RecordingRegistry::default());
+        let router = {
+            let _g = rt.enter();
+            snap_control::server::build_router(
+                NoUnderlays,
+                url::Url::parse("http://127.0.0.1:1/").unwrap(),
+                NoSegments,
+                NoResolver,
+                registry.clone(),
+                None,
+                verifier.clone(),
+                snap_control::server::metrics::Metrics::new(&scion_sdk_observability::metrics::registry::MetricsRegistry::new()),
+            )
+            .expect("build_router")
+        };
+        Real { rt, verifier, router, registry }
+    }
+
+    /// `SnapTokenVerifier::verify`: Ok(exp as the real claims report it) or Err(text).
+    fn verify(&self, token: &str) -> Result<Result<u64, String>, String> {
+        vpc::catch(|| {
+            self.rt.block_on(async {
+                match self.verifier.verify(token).await {
+                    // exp as the returned claims carry it (read through their own serialisation)
+                    Ok(claims) => Ok(serde_json::to_value(&claims).ok().and_then(|v| v.get("exp").and_then(|e| e.as_u64())).unwrap_or(0)),
+                    Err(e) => Err(e.to_string()),
+                }
+            })
+        })
+    }
+
+    /// Real router: POST RegisterSnapTunIdentity with `Authorization: Bearer <token>`. Returns
+    /// (status, lifetime passed to the registry if it was called), or None when the string cannot
+    /// be carried in an HTTP header value at all.
+    fn route(&self, token: &str) -> Option<Result<(u16, Option<Duration>), String>> {
+        let hv = http::HeaderValue::from_str(&format!("Bearer {token}")).ok()?;
+        let mut body = vec![0x0a, 32];
+        body.extend_from_slice(&[0x11u8; 32]); // initiator_static_x25519
+        body.extend_from_slice(&[0x12, 32]);
+        body.extend_from_slice(&[0u8; 32]); // psk_share: all zero = none
+        let req = http::Request::builder()
+            .method("POST")
+            .uri("/anapaya.snap.v1.SnapControl/RegisterSnapTunIdentity")
+            .header("content-type", "application/proto")
+            .header("authorization", hv)
+            .extension(axum::extract::ConnectInfo(SocketAddr::from(([192, 0, 2, 7], 40000))))
+            .body(axum::body::Body::from(body))
+            .expect("request");
+        self.registry.calls.lock().unwrap().clear();
+        let router = self.router.clone();
+        let r = vpc::catch(|| self.rt.block_on(async { router.oneshot(req).await.map(|resp| resp.status().as_u16()) }));
+        Some(match r {
+            Err(p) => Err(format!("panic: {p}")),
+            Ok(Err(e)) => Err(format!("router error: {e}")),
+            Ok(Ok(status)) => {
+                let calls = self.registry.calls.lock().unwrap();
+                if calls.len() > 1 {
+                    Err(format!("registry called {} times", calls.len()))
+                } else {
+                    Ok((status, calls.first().map(|c| c.0)))
+                }
+            }
+        })
+    }
+}
+
+thread_local! {
+    static REAL: RefCell<Option<Real>> = const { RefCell::new(None) };
+}
+fn with_real<T>(f: impl FnOnce(&Real) -> T) -> T {
+    REAL.with(|r| {
+        let mut r = r.borrow_mut();
+        if r.is_none() {
+            *r = Some(Real::new(static_verifier()));
+        }
+        f(r.as_ref().unwrap())
+    })
+}
+
+fn unix_now() -> (i64, SystemTime) {
+    let t = SystemTime::now();
+    (t.duration_since(UNIX_EPOCH).unwrap().as_secs() as i64, t)
+}
+
+// ---------------------------------------------------------------------------------------------
+// one case
+// ---------------------------------------------------------------------------------------------
+struct CaseResult {
+    token: String,
+    now: i64,
+    oracle: Verdict,
+    real: Result<u64, String>,
+    route: Option<(u16, Option<Duration>)>,
+    /// (class, text) of each disagreement
+    problems: Vec<(String, String)>,
+}
+
+fn judge(token: &str, now: i64, t0: SystemTime, o: &Verdict, real: &Real, problems: &mut Vec<(String, String)>) -> (Result<u64, String>, Option<(u16, Option<Duration>)>) {
+    let rv = match real.verify(token) {
+        Ok(r) => r,
+        Err(p) => {
+            problems.push((format!("panic@{}", vpc::last_panic_location()), format!("SnapTokenVerifier::verify panicked: {p}")));
+            Err("panic".into())
+        }
+    };
+    match (o, &rv) {
+        (Verdict::Accept { exp }, Ok(e)) => {
+            if exp != e {
+                problems.push(("claims-exp-differs".into(), format!("verifier returned claims with exp {e}, the token says {exp}")));
+            }
+        }
+        (Verdict::Accept { .. }, Err(e)) => problems.push(("valid-token-refused".into(), format!("token satisfies every condition of the property but verify() refused it: {e}"))),
+        (Verdict::Refuse(why), Ok(_)) => problems.push((format!("{why}-accepted"), format!("verify() accepted a token the property refuses ({why})"))),
+        (Verdict::Refuse(_), Err(_)) | (Verdict::Unspecified(_), _) => {}
+    }
+    // router: 401 <=> verify() refuses; registration only with lifetime <= exp - now
+    let route = match real.route(token) {
+        None => None,
+        Some(Err(e)) => {
+            let class = if e.contains("overflow when adding duration") {
+                "handler-panic-exp-time-overflow".to_string()
+            } else if e.starts_with("panic") {
+                format!("handler-panic@{}", vpc::last_panic_location())
+            } else {
+                "router-failure".to_string()
+            };
+            problems.push((class, format!("request with this bearer token: {e}")));
+            None
+        }
+        Some(Ok((status, life))) => {
+            let refused = status == 401;
+            if refused != rv.is_err() {
+                problems.push((
+                    if refused { "auth-layer-refuses-what-verifier-accepts".into() } else { "auth-layer-passes-what-verifier-refuses".into() },
+                    format!("router status {status}, verify() = {rv:?}"),
+                ));
+            }
+            if let Some(life) = life {
+                if !(200..300).contains(&status) {
+                    problems.push(("registered-but-not-2xx".into(), format!("registry was called but status {status}")));
+                }
+                match &rv {
+                    Ok(exp) => {
+                        let remaining = (UNIX_EPOCH + Duration::from_secs(*exp)).duration_since(t0).unwrap_or(Duration::ZERO);
+                        if life > remaining {
+                            problems.push(("lifetime-exceeds-remaining".into(), format!("granted {life:?} > exp - now = {remaining:?}")));
+                        }
+                    }
+                    Err(_) => problems.push(("registered-without-valid-token".into(), format!("registry called with lifetime {life:?} although verify() refuses"))),
+                }
+            } else if let (Ok(exp), true) = (&rv, (200..300).contains(&status)) {
+                problems.push(("2xx-without-registration".into(), format!("status {status}, exp {exp}")));
+            }
+            if let Ok(exp) = &rv {
+                // tokens with >= 3 s of life left must be served; tokens already past exp must not register
+                if *exp as i64 >= now + 3 && !(200..300).contains(&status) {
+                    problems.push(("valid-token-not-served".into(), format!("verify() accepts, {}s of life left, status {status}", *exp as i64 - now)));
+                }
+                if (*exp as i64) <= now - 3 && life.is_some() {
+                    problems.push(("registration-after-expiry".into(), format!("exp is {}s in the past (inside leeway) and a registration was granted", now - *exp as i64)));
+                }
+            }
+            Some((status, life))
+        }
+    };
+    (rv, route)
+}
+
+fn run_case(base_ver: u8, muts: &[&Mutn], keys: &Keys, static_pk: &VerifyingKey) -> CaseResult {
+    with_real(|real| {
+        let mut last = None;
+        for _attempt in 0..4 {
+            let (now, t0) = unix_now();
+            let token = build(base_ver, muts, now, keys);
+            let o = oracle(&token, now, static_pk, None);
+            let mut problems = vec![];
+            let (rv, route) = judge(&token, now, t0, &o, real, &mut problems);
+            let (after, _) = unix_now();
+            let res = CaseResult { token, now, oracle: o, real: rv, route, problems };
+            if after - now <= 1 {
+                return res;
+            }
+            last = Some(res);
+        }
+        // the machine stalled four times in a row: keep the last result only if it shows no problem
+        let mut r = last.unwrap();
+        r.problems.clear();
+        r.oracle = Verdict::Unspecified("clock-drift-during-evaluation");
+        r
+    })
+}
+
+fn outcome_class(r: &CaseResult) -> String {
+    let o = match &r.oracle {
+        Verdict::Accept { .. } => "accept".to_string(),
+        Verdict::Refuse(w) => format!("refuse({w})"),
+        Verdict::Unspecified(w) => format!("unspecified({w})"),
+    };
+    let v = if r.real.is_ok() { "accepted" } else { "refused" };
+    let rt = match &r.route {
+        None if r.problems.iter().any(|(c, _)| c.starts_with("handler-panic") || c == "router-failure") => "failed".to_string(),
+        None => "unsendable".to_string(),
+        Some((s, l)) => format!("{s}{}", if l.is_some() { "+registered" } else { "" }),
+    };
+    format!("oracle={o} verify={v} router={rt}")
+}
+
+fn witness(base_ver: u8, muts: &[&Mutn], r: &CaseResult) -> Value {
+    json!({
+        "stage": "static",
+        "base": format!("v{base_ver}"),
+        "mutations": muts.iter().map(|x| x.id.clone()).collect::<Vec<_>>(),
+        "token": r.token,
+        "now_unix": r.now,
+        "oracle": format!("{:?}", r.oracle),
+        "verify": format!("{:?}", r.real),
+        "router": format!("{:?}", r.route),
+    })
+}
+
+// ---------------------------------------------------------------------------------------------
+// JWKS stage (loopback endpoint)
+// ---------------------------------------------------------------------------------------------
+struct JwksStage {
+    rt: tokio::runtime::Runtime,
+    verifier: SnapTokenVerifier,
+}
+impl JwksStage {
+    fn start(keys: &Keys) -> Result<JwksStage, String> {
+        // reqwest (inside JwksKeyStore) needs a rustls provider; the repo's binaries install ring
+        scion_sdk_utils::rustls::select_ring_crypto_provider();
+        let rt = tokio::runtime::Builder::new_multi_thread().worker_threads(2).enable_all().build().map_err(|e| e.to_string())?;
+        let x = b64e(keys.jwks.verifying_key().as_bytes());
+        let jwks = json!({"keys": [{"kid": "k1", "kty": "OKP", "use": "sig", "alg": "EdDSA", "crv": "Ed25519", "x": x}]});
+        let verifier = rt.block_on(async move {
+            let listener = tokio::net::TcpListener::bind("127.0.0.1:0").await.map_err(|e| format!("bind: {e}"))?;
+            let addr = listener.local_addr().map_err(|e| e.to_string())?;
+            let body = jwks.to_string();
+            let app = axum::Router::new().route(
+                "/.well-known/jwks.json",
+                axum::routing::get(move || {
+                    let body = body.clone();
+                    async move { ([(http::header::CONTENT_TYPE, "application/json")], body) }
+                }),
+            );
+            tokio::spawn(async move {
+                let _ = axum::serve(listener, app).await;
+            });
+            let url: url::Url = format!("http://{addr}/.well-known/jwks.json").parse().map_err(|e| format!("{e}"))?;
+            let store = snap_control::server::jwks_key_store::JwksKeyStore::new(url, Duration::from_secs(86400), Default::default());
+            Ok::<_, String>(static_verifier().with_jwks_store(Arc::new(store)))
+        })?;
+        Ok(JwksStage { rt, verifier })
+    }
+    fn verify(&self, token: &str) -> Result<Result<(), String>, String> {
+        vpc::catch(|| self.rt.block_on(async { self.verifier.verify(token).await.map(|_| ()).map_err(|e| e.to_string()) }))
+    }
+}
+
+// ---------------------------------------------------------------------------------------------
+// enumeration
+// ---------------------------------------------------------------------------------------------
+fn find<'a>(cat: &'a [Mutn], id: &str) -> Option<&'a Mutn> {
+    cat.iter().find(|x| x.id == id)
+}
+
+fn replay(args: &vpc::Args, file: &std::path::Path) -> ! {
+    let r = vpc::read_replay(file);
+    let w = &r["witness"];
+    let keys = Keys::new();
+    let static_pk = keys.trusted.verifying_key();
+    println!("replay of {} (class {})", file.display(), r["class"]);
+    let _ = args;
+    if w["stage"] == "short-string" || w["mutations"].is_null() {
+        let token = w["token"].as_str().unwrap_or("");
+        let (now, t0) = unix_now();
+        let o = oracle(token, now, &static_pk, None);
+        let mut problems = vec![];
+        let (rv, route) = with_real(|real| judge(token, now, t0, &o, real, &mut problems));
+        println!("token   = {token:?}\noracle  = {o:?}\nverify  = {rv:?}\nrouter  = {route:?}\nproblems= {problems:?}");
+        std::process::exit(if problems.is_empty() { 0 } else { 1 });
+    }
+    let base_ver: u8 = if w["base"] == "v1" { 1 } else { 0 };
+    let cat = catalogue(base_ver, 1);
+    let ids: Vec<String> = w["mutations"].as_array().map(|a| a.iter().filter_map(|x| x.as_str().map(String::from)).collect()).unwrap_or_default();
+    let muts: Vec<&Mutn> = ids.iter().map(|id| find(&cat, id).unwrap_or_else(|| vpc::machinery_failure(&format!("unknown mutation id {id}")))).collect();
+    if w["stage"] == "jwks" {
+        let stage = JwksStage::start(&keys).unwrap_or_else(|e| vpc::machinery_failure(&format!("JWKS stage: {e}")));
+        let (now, _) = unix_now();
+        let token = build(base_ver, &muts, now, &keys);
+        let set = [("k1", keys.jwks.verifying_key())];
+        let o = oracle(&token, now, &static_pk, Some(&set));
+        let rv = stage.verify(&token);
+        println!("base v{base_ver}, mutations {ids:?} (rebuilt against the current clock, verifier static+JWKS)\ntoken   = {token}\noracle  = {o:?}\nverify  = {rv:?}");
+        let bad = matches!((&o, &rv), (Verdict::Accept { .. }, Ok(Err(_))) | (Verdict::Refuse(_), Ok(Ok(()))) | (_, Err(_)));
+        std::process::exit(if bad { 1 } else { 0 });
+    }
+    let res = run_case(base_ver, &muts, &keys, &static_pk);
+    println!(
+        "base v{base_ver}, mutations {ids:?} (rebuilt against the current clock)\ntoken   = {}\nnow     = {}\noracle  = {:?}\nverify  = {:?}\nrouter  = {:?}\nproblems= {:?}",
+        res.token, res.now, res.oracle, res.real, res.route, res.problems
+    );
+    std::process::exit(if res.problems.is_empty() { 0 } else { 1 });
+}
+
 pub fn run(args: &vpc::Args) -> ! {
-    vpc::machinery_failure(&format!("property {} not implemented yet", args.prop))
+    if std::env::var_os("VP_SHOW_PANICS").is_none() {
+        vpc::quiet_panics();
+    }
+    if let Some(f) = &args.replay {
+        replay(args, f);
+    }
+    let run = vpc::Run::new(args);
+    let keys = Keys::new();
+    let static_pk = keys.trusted.verifying_key();
+    // the independent key must be the key the verifier is configured with
+    {
+        let repo_sk = scion_sdk_token_validator::validator::insecure_const_ed25519_signing_key();
+        if repo_sk.verifying_key().as_bytes() != static_pk.as_bytes() {
+            vpc::machinery_failure("the repo's constant test key is no longer seed [43;32]");
+        }
+    }
+    let thorough = run.tier == vpc::Tier::Thorough;
+    let evaluations = std::sync::atomic::AtomicU64::new(0);
+    let identities = std::sync::atomic::AtomicU64::new(0);
+    let distinct = vpc::Distinct::default();
+    let mut bound = vec![];
+
+    let record = |base_ver: u8, muts: &[&Mutn], r: CaseResult| {
+        evaluations.fetch_add(1, std::sync::atomic::Ordering::Relaxed);
+        run.outcome(&outcome_class(&r));
+        run.sample(6, || witness(base_ver, muts, &r));
+        for (class, what) in &r.problems {
+            run.violation(class, what, witness(base_ver, muts, &r));
+        }
+    };
+
+    for base_ver in [0u8, 1] {
+        // sanity: the unmutated base token must be accepted by both sides (else the run is vacuous)
+        let r0 = run_case(base_ver, &[], &keys, &static_pk);
+        if !matches!(r0.oracle, Verdict::Accept { .. }) || r0.real.is_err() {
+            vpc::machinery_failure(&format!("base token v{base_ver} is not accepted: oracle {:?}, verify {:?}", r0.oracle, r0.real));
+        }
+        let base_token_shape = {
+            // identity filter: a mutation set is an identity if it reproduces the base token
+            let (now, _) = unix_now();
+            (now, build(base_ver, &[], now, &keys))
+        };
+        let is_identity = |muts: &[&Mutn]| build(base_ver, muts, base_token_shape.0, &keys) == base_token_shape.1;
+        record(base_ver, &[], r0);
+
+        // singles: full catalogue (all 512 signature bits)
+        let cat_full = catalogue(base_ver, 1);
+        let singles: Vec<&Mutn> = cat_full.iter().filter(|x| !is_identity(&[x])).collect();
+        identities.fetch_add((cat_full.len() - singles.len()) as u64, std::sync::atomic::Ordering::Relaxed);
+        singles.par_iter().for_each(|mu| {
+            let r = run_case(base_ver, &[mu], &keys, &static_pk);
+            distinct.add(format!("v{base_ver}|{}", mu.id).as_bytes());
+            record(base_ver, &[mu], r);
+        });
+
+        // pairs from different groups
+        let cat_pairs = catalogue(base_ver, if thorough { 1 } else { 16 });
+        let cp: Vec<&Mutn> = cat_pairs.iter().filter(|x| !is_identity(&[x])).collect();
+        let mut pairs = vec![];
+        for i in 0..cp.len() {
+            for j in i + 1..cp.len() {
+                if cp[i].group != cp[j].group {
+                    pairs.push((cp[i], cp[j]));
+                }
+            }
+        }
+        pairs.par_iter().for_each(|(a, b)| {
+            let r = run_case(base_ver, &[a, b], &keys, &static_pk);
+            distinct.add(format!("v{base_ver}|{}|{}", a.id, b.id).as_bytes());
+            record(base_ver, &[a, b], r);
+        });
+
+        // triples of header/claim mutations (thorough)
+        let mut ntriples = 0usize;
+        if thorough {
+            let hc: Vec<&Mutn> = cp.iter().copied().filter(|x| x.group != "sig" && x.group != "str").collect();
+            let mut triples = vec![];
+            for i in 0..hc.len() {
+                for j in i + 1..hc.len() {
+                    if hc[i].group == hc[j].group {
+                        continue;
+                    }
+                    for k in j + 1..hc.len() {
+                        if hc[k].group != hc[i].group && hc[k].group != hc[j].group {
+                            triples.push((hc[i], hc[j], hc[k]));
+                        }
+                    }
+                }
+            }
+            ntriples = triples.len();
+            triples.par_iter().for_each(|(a, b, c)| {
+                let r = run_case(base_ver, &[a, b, c], &keys, &static_pk);
+                distinct.add(format!("v{base_ver}|{}|{}|{}", a.id, b.id, c.id).as_bytes());
+                record(base_ver, &[a, b, c], r);
+            });
+        }
+        bound.push(format!(
+            "base v{base_ver}: all {} non-identity single mutations (of {} catalogued, incl. all 512 signature bit flips); all {} pairs from different groups over {} mutations ({}); {}",
+            singles.len(),
+            cat_full.len(),
+            pairs.len(),
+            cp.len(),
+            if thorough { "full catalogue" } else { "signature flips reduced to every 16th bit" },
+            if thorough { format!("all {ntriples} triples of header/claim mutations from three different groups") } else { "no triples".to_string() },
+        ));
+    }
+
+    // all short strings over an alphabet that can form segment separators, padding and base64 text
+    {
+        let alphabet = ['.', 'e', 'A', '=', ' '];
+        let maxlen = run.tier.pick(5, 7);
+        let mut all = vec![String::new()];
+        let mut frontier = vec![String::new()];
+        for _ in 0..maxlen {
+            let mut next = vec![];
+            for s in &frontier {
+                for c in alphabet {
+                    let mut t = s.clone();
+                    t.push(c);
+                    next.push(t);
+                }
+            }
+            all.extend(next.iter().cloned());
+            frontier = next;
+        }
+        // plus: a valid header and payload followed by every short third segment
+        let (now, _) = unix_now();
+        let (h, c) = base_parts(0, now);
+        let (msg, _) = signed(&keys.trusted, &h, &c);
+        let shorts: Vec<String> = all.iter().filter(|s| s.len() <= 3).map(|s| format!("{msg}.{s}")).collect();
+        all.extend(shorts);
+        all.par_iter().for_each(|tok| {
+            with_real(|real| {
+                let (now, t0) = unix_now();
+                let o = oracle(tok, now, &static_pk, None);
+                let mut problems = vec![];
+                let (rv, route) = judge(tok, now, t0, &o, real, &mut problems);
+                let r = CaseResult { token: tok.clone(), now, oracle: o, real: rv, route, problems };
+                evaluations.fetch_add(1, std::sync::atomic::Ordering::Relaxed);
+                distinct.add(format!("s|{tok}").as_bytes());
+                run.outcome(&outcome_class(&r));
+                for (class, what) in &r.problems {
+                    run.violation(class, what, json!({"stage": "short-string", "token": r.token, "oracle": format!("{:?}", r.oracle), "verify": format!("{:?}", r.real), "router": format!("{:?}", r.route)}));
+                }
+            })
+        });
+        bound.push(format!("all {} strings: every string of length <= {maxlen} over {{'.','e','A','=',' '}} and a valid header.payload followed by every such string of length <= 3", all.len()));
+    }
+
+    // JWKS stage: verifier = static key + JWKS store {k1 -> third key}
+    let mut jwks_note = String::new();
+    match JwksStage::start(&keys) {
+        Err(e) => jwks_note = format!("JWKS stage NOT run ({e})"),
+        Ok(stage) => {
+            let set = [("k1", keys.jwks.verifying_key())];
+            let mut n = 0u64;
+            for base_ver in [0u8, 1] {
+                let cat = catalogue(base_ver, 64);
+                let kid: Vec<Option<&Mutn>> = std::iter::once(None).chain(cat.iter().filter(|x| x.group == "kid").map(Some)).collect();
+                let sigs: Vec<Option<&Mutn>> = std::iter::once(None).chain(cat.iter().filter(|x| x.group == "sig").map(Some)).collect();
+                let others: Vec<Option<&Mutn>> = std::iter::once(None).chain(cat.iter().filter(|x| x.group != "sig" && x.group != "kid" && x.group != "str").map(Some)).collect();
+                for k in &kid {
+                    for s in &sigs {
+                        for o in &others {
+                            if !thorough && o.is_some() && s.is_some() && !matches!(s.map(|x| x.id.as_str()), Some("sig:jwks-key" | "sig:untrusted-key" | "sig:stale")) {
+                                continue;
+                            }
+                            let muts: Vec<&Mutn> = [*k, *s, *o].into_iter().flatten().collect();
+                            let mut res = None;
+                            for _ in 0..4 {
+                                let (now, _) = unix_now();
+                                let token = build(base_ver, &muts, now, &keys);
+                                let ov = oracle(&token, now, &static_pk, Some(&set));
+                                let rv = stage.verify(&token);
+                                let (after, _) = unix_now();
+                                res = Some((token, now, ov, rv));
+                                if after - now <= 1 {
+                                    break;
+                                }
+                            }
+                            let (token, now, ov, rv) = res.unwrap();
+                            n += 1;
+                            evaluations.fetch_add(1, std::sync::atomic::Ordering::Relaxed);
+                            distinct.add(format!("j|v{base_ver}|{}", muts.iter().map(|x| x.id.as_str()).collect::<Vec<_>>().join("|")).as_bytes());
+                            let w = || json!({"stage": "jwks", "base": format!("v{base_ver}"), "mutations": muts.iter().map(|x| x.id.clone()).collect::<Vec<_>>(), "token": token, "now_unix": now, "oracle": format!("{ov:?}"), "verify": format!("{rv:?}")});
+                            let oc = match &ov {
+                                Verdict::Accept { .. } => "accept".to_string(),
+                                Verdict::Refuse(x) => format!("refuse({x})"),
+                                Verdict::Unspecified(x) => format!("unspecified({x})"),
+                            };
+                            match (&ov, &rv) {
+                                (_, Err(p)) => run.violation(&format!("panic@{}", vpc::last_panic_location()), &format!("verify (JWKS) panicked: {p}"), w()),
+                                (Verdict::Accept { .. }, Ok(Err(e))) => run.violation("valid-token-refused", &format!("verifier with JWKS store refused a token the property accepts: {e}"), w()),
+                                (Verdict::Refuse(why), Ok(Ok(()))) => run.violation(&format!("{why}-accepted"), &format!("verifier with JWKS store accepted a token the property refuses ({why})"), w()),
+                                _ => {}
+                            }
+                            run.outcome(&format!("jwks: oracle={oc} verify={}", if matches!(rv, Ok(Ok(()))) { "accepted" } else { "refused" }));
+                        }
+                    }
+                }
+            }
+            bound.push(format!(
+                "verifier static+JWKS (loopback endpoint, kid k1 -> third key): {n} tokens = kid {{absent,k1,unknown,empty,non-string}} x signature {{trusted, JWKS key, untrusted, stale, spliced, zero, truncated, 8 bit flips, ...}} x {{none, every header/claim mutation}}{}",
+                if thorough { "" } else { " (quick: header/claim mutations only combined with the trusted, JWKS, untrusted and stale signatures)" }
+            ));
+        }
+    }
+
+    let evaluations = evaluations.into_inner();
+    let mut assumptions = vec![
+        "trusted glue not executed: TCP/TLS listener, HTTP header parsing of a real connection (the Authorization header value is handed to the real router in-process)",
+        "Ed25519 unforgeability is assumed: strings far from any valid token are represented only by all short strings and by mutation neighbourhoods",
+        "required claims are read in the type the claims version defines (v0: pssid UUID text, exp integer, jti string; v1 additionally ver=1, iss/aud strings, nbf/iat integers, pssid base64url(0x00||uuid)); integer means a JSON integer literal",
+        "an `aud` that names nothing (number, object, empty array, array without strings, null) and an `nbf` that is not a number in a v0 token are left undecided by the property text: counted as `unspecified`, either verdict passes",
+        "every case is built relative to a `now` read just before it; offsets keep >= 3 s distance from the 60 s leeway boundaries and a case that took > 1 s is re-run, so wall-clock progress cannot flip a verdict",
+    ];
+    if !jwks_note.is_empty() {
+        assumptions.push(&jwks_note);
+    }
+    let rule = "distinct mutation sets (base, sorted mutation ids) whose token string differs from the base token, plus distinct short strings; identities are filtered out before evaluation";
+    let cov = json!({
+        "evaluations": evaluations,
+        "distinct_nontrivial": distinct.len(),
+        "rule": rule,
+        "identity_mutations_filtered": identities.into_inner(),
+        "exhaustive": true,
+        "bound": bound.join(" | "),
+    });
+    run.finish("exploration", cov, &assumptions);
 }
